@@ -432,7 +432,7 @@ class DrvDomain(Domain):
             return self.abs_binop(op, b, a, e, fr)
         if isinstance(a, Opaque) or isinstance(b, Opaque):
             if op in ("<", "<=", ">", ">=", "==", "!="):
-                return S(op, a, b)
+                return self.choose(S(op, a, b), e, fr)
             return Opaque("arith")
         ok = lambda x: is_scalar_term(x) or num(x)
         if ok(a) and ok(b):
@@ -440,6 +440,11 @@ class DrvDomain(Domain):
                 # the denominator is still its placeholder constant on this path: the quotient is inf or NaN whatever the numerator
                 self.event("nan", ir.locstr(e), "floating-point division of '%s' by a denominator that is the constant 0 on this path (never assigned from this solve): the result (inf or NaN) is reported as a statistic" % show(a)[:80])
                 return S("NaN")
+            if op in ("<", "<=", ">", ">=", "==", "!="):
+                # a comparison of value-dependent scalars is decided where it is evaluated (both outcomes explored, logged with
+                # the comparison as the condition), so that it does not matter whether the code branches on it directly,
+                # stores it in a bool first, or combines it with && / || / !
+                return self.choose(S(op, a, b), e, fr)
             return S(op, a, b)
         raise AnalysisBroken("binary %s on %r, %r at %s" % (op, a, b, ir.locstr(e)))
 
